@@ -179,6 +179,50 @@ fn check_list(ev: &mut Ev, pt: &str, names: &[String], splits: &[Vec<usize>]) ->
             }
         }
     }
+    // Boundary shift: the same characters split differently between pattern
+    // and name ("lib*" + "libfoo-1.0" / "lib*lib" + "foo-1.0").  Each call is
+    // judged on its own; an answer remembered under a key that runs the two
+    // arguments together would be given to the wrong question.
+    if let Some(x) = names.first() {
+        let cuts: Vec<usize> = [1usize, 2, 3, x.len() / 2].into_iter().filter(|&k| k > 0 && k < x.len() && x.is_char_boundary(k)).collect();
+        for k in cuts {
+            let (p2t, x2) = (format!("{pt}{}", &x[..k]), &x[k..]);
+            let Ok(p2) = Pattern::new(&p2t) else { continue };
+            ev.count("boundary-shift/pairs");
+            for y in names.iter().map(|s| s.as_str()).chain(std::iter::once(x2)) {
+                let got = p2.best_match(x2, y);
+                ev.eval();
+                let (mx, my) = (p2.matches(x2), p2.matches(y));
+                let exp: Option<&str> = match (mx, my) {
+                    (false, false) => None,
+                    (true, false) => Some(x2),
+                    (false, true) => Some(y),
+                    (true, true) => {
+                        if !gv::usable_padded(ver_of(x2)) || !gv::usable_padded(ver_of(y)) {
+                            continue;
+                        }
+                        Some(match vorder(ver_of(x2), ver_of(y))? {
+                            Ordering::Greater => x2,
+                            Ordering::Less => y,
+                            Ordering::Equal => {
+                                if x2 <= y {
+                                    x2
+                                } else {
+                                    y
+                                }
+                            }
+                        })
+                    }
+                };
+                if got != exp {
+                    return Err(format!(
+                        "best_match({p2t:?}, {x2:?}, {y:?}) = {got:?}, expected {exp:?} (matches: {mx}, {my}); asked right after the same characters split as pattern {pt:?} / name {x:?}"
+                    )
+                    .into());
+                }
+            }
+        }
+    }
     // every permutation of the left fold
     let items: Vec<Option<&str>> = names.iter().map(|s| Some(s.as_str())).collect();
     for perm in permutations(names.len()) {
